@@ -29,6 +29,12 @@ CLAIMED["C08"] = ("differential testing against CPython's argument binding over 
 CLAIMED["C16"] = ("exhaustive enumeration of type expressions (depth<=1 complete, depth 2 sampled) x value catalogue against a reference denotation from docs/types.md, plus cross-path agreement (isinstance / annotations / eval_type / host TypeCompiled, frozen and unfrozen); random depth-3 types",
     "Exploration, exhaustive for the enumerated sub-space: every check path must give the documented answer (where the doc settles it) and all paths must agree before and after freezing.",
     "Reference denotation is hand-written from docs/types.md; undocumented combinations are only checked for path agreement.", "DESIGN.md §5 C16")
+CLAIMED["C02"] = ("metamorphic property testing: generated programs vs opacified variants (constants/callees hidden behind an opaque native) x {module level, def in defining module, frozen+loaded, host call}; exhaustive marker subsets for hand-written optimiser targets",
+    "Exploration: all variants of a program must give identical transcript, outcome and error message; the unfrozen/frozen and hidden/visible configurations compile genuinely different code.",
+    "Trusts that opaque() hides values from the optimiser and that def-wrapping is meaning preserving (cross-checked by C01 against CPython).", "DESIGN.md §5 C02")
+CLAIMED["C03"] = ("metamorphic property testing over GC schedules (forced collections at evaluator safepoints via hook H1, freed arenas poisoned via hook H2), generated programs with cyclic/aliased/closure-held/embedder-set values, multi-call histories on one module",
+    "Exploration: transcript, outcomes, final globals and extra_value must be identical with GC disabled, default, every k-th safepoint (k=1,2,3,7) and a generated safepoint mask; a dangling reference reads poison and crashes the isolated worker.",
+    "Relies on cfg(starlark_verif) hooks H1/H2; only safepoints the evaluator itself offers are used.", "DESIGN.md §5 C03")
 NOT_YET = {}
 
 def main():
